@@ -355,6 +355,8 @@ def run_pool421(cell):
         except Exception as e:
             outs[i] = ('other', e)
 
+    close_fault = api.choice('close_raises', 2)
+
     def server_timeout():
         gevent.sleep(t_421)
         for p in w.peers:
@@ -362,6 +364,16 @@ def run_pool421(cell):
                 p.client.use_fd = True
                 p.client._feed(b'421 4.4.2 idle too long\r\n')
                 p.stalled = True
+                if close_fault:
+                    # closing the dead connection fails (as a TLS unwrap
+                    # or an already reset socket would)
+                    real_close = p.client.close
+
+                    def close(real_close=real_close):
+                        real_close()
+                        raise OSError(107, 'Transport endpoint is not '
+                                      'connected')
+                    p.client.close = close
     gevent.spawn(go, 0, 0)
     gevent.spawn(server_timeout)
     gevent.spawn(go, 1, t1)
